@@ -44,4 +44,7 @@ func init() {
 	c02Redirect("(*golang.org/x/sync/errgroup.Group).SetLimit", "c02Model_errgroupSetLimit")
 	// C02.jsonBlock / C02.jsonTx: response headers of fasthttp (library) are not part of the answer
 	c02Redirect("(*github.com/valyala/fasthttp.ResponseHeader).Set", "c02Model_headerSet")
+	// C02.grpcBlockPrefetch / C02.jsonBlockPrefetch: the raw-object cache (bigcache behind hugecache)
+	// is a map kept by the harness; the GetNodeByCid model consults it first
+	c02Redirect("(*github.com/rpcpool/yellowstone-faithful/huge-cache.Cache).PutRawCarObject", "c02Model_cachePut")
 }
